@@ -273,6 +273,9 @@ func visitInstr(fr *frame, instr ssa.Instruction) continuation {
 		if addr == nil {
 			panic(rtPanic{"runtime error: invalid memory address or nil pointer dereference"})
 		}
+		if e.lockMon != nil {
+			e.lockMon.access(e, fr, addr, true)
+		}
 		e.store(deref(instr.Addr.Type()), addr, fr.get(instr.Val))
 
 	case *ssa.If:
@@ -399,6 +402,9 @@ func visitInstr(fr *frame, instr ssa.Instruction) continuation {
 		}
 		if e.frozen != nil {
 			e.checkFrozenObj(m)
+		}
+		if e.lockMon != nil {
+			e.lockMon.accessObj(e, m, true)
 		}
 		key := fr.get(instr.Key)
 		if k, ok := key.(iface); ok {
